@@ -338,12 +338,13 @@ func (res *Resource) selectVersion() {
 
 	// 1) Dev release if dev mode is active and ignore blacklisting
 	if res.registry.DevMode {
-		// Get last version, as this will be v0.0.0, if available.
-		rv := res.Versions[len(res.Versions)-1]
-		// Check if it's v0.0.0.
-		if rv.semVer.Equal(devVersion) && rv.Available {
-			res.SelectedVersion = rv
-			return
+		// Look for v0.0.0. It is not necessarily the last version, as
+		// pre-releases of v0.0.0 sort behind it.
+		for _, rv := range res.Versions {
+			if rv.semVer.Equal(devVersion) && rv.Available {
+				res.SelectedVersion = rv
+				return
+			}
 		}
 	}
 
